@@ -1,5 +1,48 @@
-"""C13 — engine `ms` (see mscommon.py and coq/Props/C13.v)."""
-import mscommon
+"""C13 — engine `ms` (see mscommon.py and coq/Props/C13.v), plus the whole application (engine `app`): every history is
+replayed on an instance whose process dies at a random database write of a random Commit (never the first one - finding
+F18 - and with pruning policies that keep the previous version until the new one is flushed - finding F8); the instance
+is reopened from its database, must come up at the complete previous or the complete new height, and the re-executed
+block must return the responses and the app hash of the uninterrupted run - without and with genesis consensus
+parameters (binding block gas limit, allowed validator key types), which BaseApp persists and restores itself."""
+import os
+import appcommon, mscommon
+import common as c
+
+
+def through_baseapp(a, v, cov):
+    res = c.build(["app"])
+    if not res.go_ok:
+        return
+    out, err = appcommon.run_engine_cached(a, res)
+    if err:
+        v.broken_obligation(err.split(":")[0], err)
+        return
+    hists = {h["id"]: h for h in appcommon.parse_histories(os.path.join(out, "app.ops"), os.path.join(out, "app.impl"), None)}
+    n = bad = 0
+    for l in open(os.path.join(out, "app.det")):
+        hid, variant, rest = l.rstrip("\n").split(" ", 2)
+        if not variant.endswith("crash"):
+            continue
+        n += 1
+        if rest == "same":
+            continue
+        bad += 1
+        if bad > 3:
+            continue
+        h = hists.get(hid)
+        kind = "reopen-fails-after-crash" if "crash-reopen-failed" in rest else ("mixture" if "reopened-at-height" in rest else "replay-differs")
+        v.violation({"engine": "app", "kind": kind, "variant": variant},
+                    "history %s, process killed inside a Commit and reopened (%s): %s" % (hid, variant, rest[:300]),
+                    {"history": (h["header"] + [o[0] for o in h["ops"]] + ["E"]) if h else [], "variant": variant, "difference": rest})
+    cov["application_histories_replayed_with_a_crash_inside_commit"] = n
+    cov["application_crash_replays_differing"] = bad
+    try:
+        import json
+        st = json.load(open(os.path.join(out, "app.stats.json")))
+        cov["application_crash_outcomes"] = {k: x for k, x in st.items() if k.startswith("det/crash/")}
+    except Exception:
+        pass
+
 
 def run(a):
-    return mscommon.run(a, "C13", "crash during Commit corrupts the store")
+    return mscommon.run(a, "C13", "crash during Commit corrupts the store", extra=through_baseapp)
